@@ -42,10 +42,81 @@ def _write_replay(prop, bucket, regress=False):
     return os.path.relpath(path, VERIF) if harness.OUT == VERIF else path
 
 
+AMBIENT_ENV = {'VERIF_AMBIENT': '1', 'TZ': 'Pacific/Kiritimati', 'PYTHONWARNINGS': 'default'}
+AMBIENT_SETTINGS = ('python -O (asserts compiled away), TZ=Pacific/Kiritimati (UTC+14), and around every library call made through '
+                    'vlib.lib.call: decimal context prec=6 ROUND_FLOOR / prec=3 ROUND_UP alternating, warnings raised as errors')
+
+
+def _ambient_cmd(prop, extra):
+    return [sys.executable, '-O', '-m', 'vlib.run', prop] + extra
+
+
+def _is_ambient_child():
+    return os.environ.get('VERIF_AMBIENT') == '1'
+
+
+def start_ambient(prop, tier, seed):
+    """The same search once more in a child process under unusual ambient settings (see AMBIENT_SETTINGS): the answers the
+    properties speak about do not depend on them.  Started before the main pass, collected after it."""
+    import subprocess
+    import tempfile
+    out = tempfile.mkdtemp(prefix='athlib-ambient-%s-' % prop, dir='/dev/shm' if os.path.isdir('/dev/shm') else None)
+    env = dict(os.environ, **AMBIENT_ENV)
+    env['VERIF_OUT'] = out
+    p = subprocess.Popen(_ambient_cmd(prop, ['--tier', tier, '--seed', str(seed)]), cwd=VERIF, env=env,
+                         stdout=subprocess.PIPE, stderr=subprocess.STDOUT, text=True, start_new_session=True)
+    return p, out
+
+
+def collect_ambient(prop, proc, out, ctx, parent_sigs):
+    """Returns the list of (bucket-like dict) violations the ambient pass found and the main pass did not."""
+    import shutil
+    try:
+        text, _ = proc.communicate(timeout=int(os.environ.get('VERIF_AMBIENT_TIMEOUT', '3000')))
+    except Exception:
+        import signal
+        try:
+            os.killpg(proc.pid, signal.SIGKILL)
+        except Exception:
+            pass
+        shutil.rmtree(out, ignore_errors=True)
+        raise HarnessError('the ambient pass did not finish (no verdict)')
+    found = []
+    try:
+        if proc.returncode not in (0, 1):
+            raise HarnessError('the ambient pass ended with a harness error:\n' + text[-1500:])
+        evp = os.path.join(out, 'evidence', '%s.json' % prop)
+        ev = json.load(open(evp))
+        cov = ev['coverage']
+        ctx.extra['ambient_pass'] = {'settings': AMBIENT_SETTINGS, 'evaluations': cov.get('evaluations'),
+                                     'distinct_nontrivial': cov.get('distinct_nontrivial'), 'violations': ev.get('violations'),
+                                     'wall_s': ev.get('wall_s')}
+        ctx.count(int(cov.get('evaluations') or 0))
+        ctx.label('ambient-pass-evaluations', int(cov.get('evaluations') or 0))
+        rd = os.path.join(out, 'replays')
+        for fn in sorted(os.listdir(rd)) if os.path.isdir(rd) else []:
+            doc = json.load(open(os.path.join(rd, fn)))
+            if '/'.join(doc['signature']) in parent_sigs:
+                continue          # the main pass reports it already
+            doc['signature'] = list(doc['signature']) + ['under-ambient-settings']
+            doc['ambient'] = True
+            found.append(doc)
+    finally:
+        shutil.rmtree(out, ignore_errors=True)
+    return found
+
+
 def do_replay(prop, path):
     mod = _load(prop)
     with open(path) as f:
         doc = json.load(f)
+    if doc.get('ambient') and not _is_ambient_child():
+        # found under the ambient settings: replayed under them (a child interpreter with the same flags and environment)
+        import subprocess
+        r = subprocess.run(_ambient_cmd(prop, ['--replay', os.path.abspath(path)]), cwd=VERIF, env=dict(os.environ, **AMBIENT_ENV))
+        return r.returncode
+    if doc.get('ambient') and doc.get('signature') and doc['signature'][-1] == 'under-ambient-settings':
+        doc['signature'] = doc['signature'][:-1]
     case = doc['case'] if 'case' in doc else doc
     vs = mod.examine(case)
     want = doc.get('signature')
@@ -93,8 +164,20 @@ def do_run(prop, tier, seed):
                 ctx.violation(v)
     ctx.extra['regress_cases_replayed'] = nreg
 
-    # 3. the generated search
-    mod.run(ctx)
+    # 3. the generated search (and, for the checks that ask for it, the same search once more under unusual ambient settings)
+    amb = None
+    if getattr(mod, 'AMBIENT_PASS', False) and not _is_ambient_child() and os.environ.get('VERIF_NO_AMBIENT') != '1':
+        amb = start_ambient(prop, tier, ctx.seed)
+    try:
+        mod.run(ctx)
+    except BaseException:
+        if amb:
+            try:
+                import signal
+                os.killpg(amb[0].pid, signal.SIGKILL)
+            except Exception:
+                pass
+        raise
 
     # 4. classify
     nviol = 0
@@ -120,6 +203,23 @@ def do_run(prop, tier, seed):
         lines.append('VIOLATION property=%s replay=%s' % (prop, path))
     ctx.extra['violation_signatures'] = [
         '/'.join(b['sig']) for h, b in sorted(ctx.buckets.items()) if h not in open_sigs]
+    if amb:
+        for doc in collect_ambient(prop, amb[0], amb[1], ctx, set('/'.join(b['sig']) for b in ctx.buckets.values())):
+            if sig_hash(doc['signature'][:-1]) in open_sigs:
+                continue
+            nviol += 1
+            d = os.path.join(harness.OUT, 'replays')
+            os.makedirs(d, exist_ok=True)
+            path = os.path.join(d, '%s-%s.json' % (prop, sig_hash(doc['signature'])))
+            with open(path, 'w') as f:
+                json.dump(doc, f, indent=1, sort_keys=True, default=repr)
+                f.write('\n')
+            path = os.path.relpath(path, VERIF) if harness.OUT == VERIF else path
+            print('violation: clause=%s sig=%s count=%s observed=%r expected=%r case=%s' % (
+                doc.get('clause'), '/'.join(doc['signature']), doc.get('count_in_run'), doc.get('observed'), doc.get('expected'),
+                json.dumps(doc.get('case'), default=repr)[:400]))
+            lines.append('VIOLATION property=%s replay=%s' % (prop, path))
+            ctx.extra['violation_signatures'].append('/'.join(doc['signature']))
 
     ev = harness.write_evidence(ctx, mod.RULE, time.time() - t0, nviol,
                                 assumptions=getattr(mod, 'ASSUMPTIONS', []))
